@@ -14,7 +14,13 @@ RtDemands(e) ==
       fitsE == dMax = 0 \/ Len(ext) <= dMax
       fitsB == dMax = 0 \/ Len(bas) <= dMax
       good == <<1, e.y, e.m, e.d>>
+      nx == NextDay(x)
+      nt == FmtDate(nx, FALSE)
+      fitsN == (dMax = 0 \/ Len(nt) <= dMax) /\ nx.y <= 999999999      \* the text grammar has at most 9 year digits
   IN <<
+    <<"H.next",     e.nexttext = nt>>,
+    \* one read buffer: this record, then refilled with the following day and parsed again
+    <<"C01.reuse",  (fitsE => e.reuse[1] = good) /\ (fitsN => e.reuse[2] = <<1, nx.y, nx.m, nx.d>>)>>,
     <<"H.new",      e.new = <<e.y, e.m, e.d>> >>,           \* harness sanity: a calendar date
     <<"H.chain",    e.chain = 1 => (ctx.k = "date" /\ x = NextDay(ctx.v)) >>,
     <<"X.accessors", e.acc = <<e.y, e.m, e.d>> >>,                 \* Year(), Month(), Day()
